@@ -23,7 +23,7 @@ type pathCounts struct {
 
 // enumeratePaths walks a loop body (if/else, blocks, continue; nested loops count as delegation)
 // and returns the outcome of every structured path, or a reason why it cannot.
-func enumeratePaths(body []ast.Stmt, classify func(ast.Stmt) string, alwaysTrue func(ast.Expr) bool) ([]pathCounts, string) {
+func enumeratePaths(body []ast.Stmt, classify func(ast.Stmt) string, alwaysTrue func(ast.Expr) bool, judged func(ast.Stmt) bool) ([]pathCounts, string) {
 	undecided := ""
 	var walk func(stmts []ast.Stmt, in []pathCounts) []pathCounts
 	walk = func(stmts []ast.Stmt, in []pathCounts) []pathCounts {
@@ -80,8 +80,11 @@ func enumeratePaths(body []ast.Stmt, classify func(ast.Stmt) string, alwaysTrue 
 			case *ast.BlockStmt:
 				live = walk(s.List, live)
 			case *ast.RangeStmt, *ast.ForStmt:
-				for i := range live {
-					live[i].delegates++
+				// only a loop that is itself judged by this rule takes the item over
+				if judged(st) {
+					for i := range live {
+						live[i].delegates++
+					}
 				}
 			case *ast.DeclStmt, *ast.EmptyStmt:
 			default:
@@ -150,21 +153,38 @@ func MergerLoops(p *load.Prog, r *oblig.Report, rule string) {
 		}
 		return ""
 	}
+	// judged: loops over slices of model items. Map-key collection loops are pure collectors, loops over
+	// a list of errors annotate diagnostics; neither handles an item of the merge.
+	judged := func(st ast.Stmt) bool {
+		rs, ok := st.(*ast.RangeStmt)
+		if !ok {
+			return false
+		}
+		tv, ok := info.Types[rs.X]
+		if !ok {
+			return false
+		}
+		sl, isSlice := tv.Type.Underlying().(*types.Slice)
+		if !isSlice {
+			return false
+		}
+		if types.Identical(sl.Elem(), types.Universe.Lookup("error").Type()) {
+			return false
+		}
+		return true
+	}
 	n := 0
 	ast.Inspect(fd.Body, func(nd ast.Node) bool {
 		rs, ok := nd.(*ast.RangeStmt)
 		if !ok {
 			return true
 		}
-		// only loops over slices (the map-key collection loops are pure collectors)
-		if tv, ok := info.Types[rs.X]; ok {
-			if _, isMap := tv.Type.Underlying().(*types.Map); isMap {
-				return true
-			}
+		if !judged(rs) {
+			return true
 		}
 		n++
 		construct := "loop-outcomes:range " + types.ExprString(rs.X)
-		paths, undecided := enumeratePaths(rs.Body.List, classify, alwaysTrue)
+		paths, undecided := enumeratePaths(rs.Body.List, classify, alwaysTrue, judged)
 		if undecided != "" {
 			r.Unknown(rule, construct, p.Pos(rs.Pos()), "cannot enumerate the loop body: "+undecided)
 			return true
@@ -702,4 +722,208 @@ func ModuleLookupShape(p *load.Prog, r *oblig.Report, rule string) {
 	} else {
 		r.Bad(rule, construct, p.Pos(fn.Pos()), "returns are {"+got+"}, expected {"+want+"}: relation absent ⇒ error; relation module if set; otherwise the type's module")
 	}
+}
+
+// ForwardedErrors (R9.4b, C07 "naming the offending file"): parser errors that the merger forwards
+// wholesale (multierror.Append(acc, xs...) with xs not built on the spot) carry no file of their own;
+// before they are appended, a complete loop over the same list must store the name of the file being
+// parsed into the File field of every element (reached through errors.As or a type assertion on the
+// element).
+func ForwardedErrors(p *load.Prog, r *oblig.Report, rule string) {
+	fn := p.Func("transformer", "TransformModuleFilesToModel")
+	if fn == nil {
+		r.Unknown(rule, "anchor:TransformModuleFilesToModel", "-", "function not found")
+		return
+	}
+	n := 0
+	for _, b := range fn.Blocks {
+		for _, in := range b.Instrs {
+			call, ok := in.(*ssa.Call)
+			if !ok {
+				continue
+			}
+			c := call.Common().StaticCallee()
+			if c == nil || c.Name() != "Append" || c.Pkg == nil || !strings.Contains(c.Pkg.Pkg.Path(), "go-multierror") || len(call.Common().Args) != 2 {
+				continue
+			}
+			list := call.Common().Args[1]
+			if sl, ok := list.(*ssa.Slice); ok {
+				if _, fresh := sl.X.(*ssa.Alloc); fresh {
+					continue // a literal argument list: judged by the merge-error rule
+				}
+			}
+			n++
+			construct := "merge-error:forwarded " + stripUnique(AccessPath(list))
+			pos := p.Pos(call.Pos())
+			if why := fileStoredForAll(fn, call, list); why != "" {
+				r.Bad(rule, construct, pos, "errors are forwarded without naming the file they were found in ("+why+"): with two unparseable files the caller cannot tell which one is at fault")
+			} else {
+				r.OK(rule, construct, pos, "file-stored-per-element", "a complete loop over the same list stores the parsed file's name into every element before the list is appended")
+			}
+		}
+	}
+	if n == 0 {
+		r.Unknown(rule, "merge-error:forwarded", p.Pos(fn.Pos()), "no forwarded error list found in the merger (anchor gone)")
+	}
+}
+
+func fileStoredForAll(fn *ssa.Function, app *ssa.Call, list ssa.Value) string {
+	want := AccessPath(list)
+	why := "no store to a File field of the forwarded errors"
+	for _, b := range fn.Blocks {
+		for _, in := range b.Instrs {
+			st, ok := in.(*ssa.Store)
+			if !ok {
+				continue
+			}
+			fa, ok := st.Addr.(*ssa.FieldAddr)
+			if !ok {
+				continue
+			}
+			stt, ok := fa.X.Type().Underlying().(*types.Pointer).Elem().Underlying().(*types.Struct)
+			if !ok || stt.Field(fa.Field).Name() != "File" {
+				continue
+			}
+			if _, isLit := fa.X.(*ssa.Alloc); isLit {
+				continue
+			}
+			if !types.Implements(fa.X.Type(), errorIface()) {
+				continue
+			}
+			// the value: <module>.Name of the module whose Contents were parsed
+			vp := AccessPath(st.Val)
+			if !strings.HasSuffix(vp, ".Name") || !parsedContentsOf(fn, strings.TrimSuffix(vp, ".Name")) {
+				why = "File is set to " + stripUnique(vp) + ", which is not the name of the file being parsed"
+				continue
+			}
+			// the element: fa.X derives from an element of the forwarded list
+			elem, guard := elementOf(fa.X)
+			if elem == nil {
+				why = "the object whose File is set is not an element of the forwarded list"
+				continue
+			}
+			ia, ok := elem.(*ssa.UnOp)
+			var idx *ssa.IndexAddr
+			if ok {
+				idx, _ = ia.X.(*ssa.IndexAddr)
+			}
+			if idx == nil || AccessPath(idx.X) != want {
+				why = "the loop that sets File does not run over the forwarded list"
+				continue
+			}
+			// the store is reached whenever the element has the type (only the type test guards it)
+			for _, ce := range DominatingConds(b) {
+				if ce.Cond == guard || withinLoopHeader(ce, idx) {
+					continue
+				}
+				if dominatesBlock(ce.If.Block(), app.Block()) {
+					continue // a condition the append is under as well
+				}
+				why = "the store to File is additionally guarded by " + stripUnique(AccessPath(ce.Cond))
+				guard = nil
+			}
+			if guard == nil {
+				continue
+			}
+			// complete loop whose header dominates the append
+			hdr := loopHeaderOf(idx)
+			if hdr == nil || !dominatesBlock(hdr, app.Block()) || !loopComplete(hdr) {
+				why = "the loop that sets File does not always run to completion before the list is appended"
+				continue
+			}
+			return ""
+		}
+	}
+	return why
+}
+
+var errIface *types.Interface
+
+func errorIface() *types.Interface {
+	if errIface == nil {
+		errIface = types.Universe.Lookup("error").Type().Underlying().(*types.Interface)
+	}
+	return errIface
+}
+
+// elementOf: base is (a) the load of an errors.As target filled from an interface value e under the
+// true branch, or (b) the result of a checked type assertion on e. Returns e and the guarding value.
+func elementOf(base ssa.Value) (ssa.Value, ssa.Value) {
+	switch x := base.(type) {
+	case *ssa.UnOp: // *target
+		al, ok := x.X.(*ssa.Alloc)
+		if !ok || al.Referrers() == nil {
+			return nil, nil
+		}
+		for _, ref := range *al.Referrers() {
+			mi, ok := ref.(*ssa.MakeInterface)
+			if !ok || mi.Referrers() == nil {
+				continue
+			}
+			for _, r2 := range *mi.Referrers() {
+				if call, ok := r2.(*ssa.Call); ok {
+					if c := call.Common().StaticCallee(); c != nil && c.Name() == "As" && c.Pkg != nil && c.Pkg.Pkg.Path() == "errors" {
+						return call.Common().Args[0], call
+					}
+				}
+			}
+		}
+	case *ssa.Extract:
+		if ta, ok := x.Tuple.(*ssa.TypeAssert); ok && x.Index == 0 && ta.Referrers() != nil {
+			for _, ref := range *ta.Referrers() {
+				if e, ok := ref.(*ssa.Extract); ok && e.Index == 1 {
+					return ta.X, e
+				}
+			}
+		}
+	}
+	return nil, nil
+}
+
+func loopHeaderOf(idx *ssa.IndexAddr) *ssa.BasicBlock {
+	// range over a slice: the index is a phi (or phi+1) in the loop header
+	v := idx.Index
+	if bo, ok := v.(*ssa.BinOp); ok {
+		v = bo.X
+	}
+	if ph, ok := v.(*ssa.Phi); ok {
+		return ph.Block()
+	}
+	return nil
+}
+
+func withinLoopHeader(ce CondEdge, idx *ssa.IndexAddr) bool {
+	hdr := loopHeaderOf(idx)
+	return hdr != nil && ce.If.Block() == hdr
+}
+
+func dominatesBlock(a, b *ssa.BasicBlock) bool {
+	for x := b; x != nil; x = x.Idom() {
+		if x == a {
+			return true
+		}
+	}
+	return false
+}
+
+// loopComplete: the loop with this header is left only from the header.
+func loopComplete(hdr *ssa.BasicBlock) bool {
+	if len(hdr.Succs) != 2 {
+		return false
+	}
+	body := hdr.Succs[0]
+	for _, b := range hdr.Parent().Blocks {
+		if !dominatesBlock(body, b) {
+			continue
+		}
+		for _, s := range b.Succs {
+			if s != hdr && !dominatesBlock(body, s) {
+				return false
+			}
+		}
+		if len(b.Succs) == 0 {
+			return false // return or panic inside the loop
+		}
+	}
+	return true
 }
